@@ -324,8 +324,36 @@ def r6_encryption_switch(ctx):
         )
 
 
+def r7_init_writes_its_config(ctx, rule='C05.R6'):
+    """What init returns (config, key) describes the repository it leaves behind: on every successful path the config it
+    built is uploaded.  An init that keeps a config found at the location hands out an "encrypted" key for a repository
+    whose stored config may say unencrypted - later sessions follow the stored config and write plaintext."""
+    from ..cfg import cfg_of
+
+    corpus = ctx.corpus
+    fn = corpus.func('repository', 'Repository.init')
+    ctx.analysed(fn)
+    cfg = cfg_of(fn.node)
+    ups = [c for c in calls_in(fn.node) if (dotted(c.func) or '').startswith('self._upload') and c.args and isinstance(c.args[0], ast.Constant) and c.args[0].value == 'config']
+    ctx.floor(rule, 'upload of the config object in init', len(ups))
+    from ..astutil import enclosing_stmt as _es
+
+    unodes = [x for c in ups for x in cfg.nodes_of(_es(c), ('stmt', 'ok'))]
+    skip = cfg.path(cfg.entry, [cfg.exit], avoid=unodes, kinds=('normal',))
+    ctx.check(
+        skip is None,
+        rule,
+        f'{func_label(fn)}|init-always-writes-its-config',
+        loc(fn, ups[0]),
+        'init: every successful path uploads the config that init built (and returns)',
+        f'init can return successfully without having uploaded its config (path {" -> ".join(f"{n.kind}@{n.lineno}" for n in (skip or []) if n.lineno)[:140]}): the returned key / config need not match what is stored - '
+        'e.g. an encrypted init over a leftover unencrypted config yields sessions that store everything in plaintext',
+    )
+
+
 def run(ctx):
     r6_encryption_switch(ctx)
+    r7_init_writes_its_config(ctx)
     r5_config_from_backend(ctx)
     r4_log_channel(ctx)
     r1_flows(ctx)
